@@ -26,11 +26,11 @@ func (e *vfE4Env) has(cat, key, sub, addr string) (bool, bool) {
 }
 
 func vfE4Cmd(c *vfE4Conn, s string) string {
-	c.c.SetDeadline(time.Now().Add(10 * time.Second))
+	c.c.SetDeadline(time.Now().Add(vfE4IOTimeout))
 	c.c.Write([]byte(s + "\n"))
 	b, err := vfE4ReadFrame(c.rd)
 	if err != nil {
-		panic(err)
+		vfE4GiveUp("race leg: no answer to %q within %v: %v", s, vfE4IOTimeout, err)
 	}
 	return string(b)
 }
@@ -50,11 +50,11 @@ func vfE4RaceUnregisterGC(env *vfE4Env, budget time.Duration, regA, unregA, regB
 		}
 	}()
 	lost, n := 0, 0
-	addr := cb.c.LocalAddr().String()
+	addr := cb.addr
 	deadline := time.Now().Add(budget)
 	for time.Now().Before(deadline) && lost < 3 {
-		if vfE4Cmd(cb, regB) != "OK" {
-			panic("REGISTER not OK")
+		if a := vfE4Cmd(cb, regB); a != "OK" {
+			vfE4GiveUp("race leg: REGISTER answered %q", a)
 		}
 		n++
 		if _, in := env.has(cat, key, sub, addr); !in {
@@ -72,21 +72,21 @@ func TestVerifE4Races(t *testing.T) {
 	env := vfE4Start(false, []string{"t"})
 	defer env.Stop()
 	env.Exec(fmt.Sprintf("%d identify 1 6841 6e41 7631 4150 4151", env.vnow))
-	env.Exec(fmt.Sprintf("%d identify 2 6842 6e42 7631 4150 4151", env.vnow))
+	env.Exec(fmt.Sprintf("%d identify 3 6842 6e42 7631 4150 4151", env.vnow))
 	budget := time.Duration(ms) * time.Millisecond
 
 	lost, n := vfE4RaceUnregisterGC(env, budget, "REGISTER t d#ephemeral", "UNREGISTER t d#ephemeral",
-		"REGISTER t d#ephemeral", "UNREGISTER t d#ephemeral", "channel", "t", "d#ephemeral", 1, 2)
+		"REGISTER t d#ephemeral", "UNREGISTER t d#ephemeral", "channel", "t", "d#ephemeral", 1, 3)
 	fmt.Printf("RACE unregister-gc-vs-register bad=%d rounds=%d\n", lost, n)
 
 	lost, n = vfE4RaceUnregisterGC(env, budget, "REGISTER e#ephemeral", "UNREGISTER e#ephemeral",
-		"REGISTER e#ephemeral", "UNREGISTER e#ephemeral", "topic", "e#ephemeral", "", 1, 2)
+		"REGISTER e#ephemeral", "UNREGISTER e#ephemeral", "topic", "e#ephemeral", "", 1, 3)
 	fmt.Printf("RACE unregister-gc-vs-register-topic bad=%d rounds=%d\n", lost, n)
 
 	// REGISTER t c  ||  POST /topic/delete?topic=t : afterwards either both keys hold the producer
 	// (delete; register) or neither (register; delete)
 	ca := env.conn(1)
-	addr := ca.c.LocalAddr().String()
+	addr := ca.addr
 	torn, rounds := 0, 0
 	deadline := time.Now().Add(budget)
 	for time.Now().Before(deadline) && torn < 3 {
